@@ -218,8 +218,28 @@ class Builder:
             oriented = orient(raw, rev, trans)
             f, fdt, fshape, full = fmt_shape_dtype(spec, oriented)
             ff = mk_fmt(f, raw.dtype)
-            seg = BlockAggregateSegment([s for s, _ in built], arr, 'raw', fill, shape, fdt, tuple(fshape),
-                                        reverse_axes=rev, transpose_axes=trans, format_function=ff)
+            # the arrangement may be given in raw or in formatted coordinates (`coordinate_basis`): the same mosaic.  For half of the
+            # specs without a format function (decided by the spec itself, so that a replay makes the same choice) the formatted form is
+            # used; the formatted position of a block is computed here from the orientation alone (mirror of a reversed axis, then transpose)
+            use_fmt = ff is None and spec.get('basis', 'formatted' if (sum(shape) + len(built)) % 2 else 'raw') == 'formatted' and \
+                all(e.step in (None, 1) and isinstance(e.start, int) and isinstance(e.stop, int) and 0 <= e.start < e.stop for a in arr for e in a)
+            if use_fmt:
+                nd = len(shape)
+                tr = list(trans) if trans is not None else list(range(nd))
+                rv = set(rev or ())
+                arr_f = []
+                for a in arr:
+                    pos = []
+                    for j in range(nd):
+                        r = tr[j]
+                        lo, hi = a[r].start, a[r].stop
+                        pos.append(slice(shape[r] - hi, shape[r] - lo, 1) if r in rv else slice(lo, hi, 1))
+                    arr_f.append(tuple(pos))
+                seg = BlockAggregateSegment([s for s, _ in built], arr_f, 'formatted', fill, shape, fdt, tuple(fshape),
+                                            reverse_axes=rev, transpose_axes=trans, format_function=ff)
+            else:
+                seg = BlockAggregateSegment([s for s, _ in built], arr, 'raw', fill, shape, fdt, tuple(fshape),
+                                            reverse_axes=rev, transpose_axes=trans, format_function=ff)
             return seg, Oracle(raw, full)
         raise ValueError(k)
 
@@ -408,6 +428,12 @@ def rand_blocks(rng, depth):
             arrangement.append([[a, b, 1] for a, b in c])
     spec = {'kind': 'blocks', 'shape': shape, 'children': children, 'arrangement': arrangement, 'fill': -7}
     spec['rev'], spec['trans'] = rand_orient(rng, ndim, 0.4, 0.3)
+    if ndim == 2 and rng.random() < 0.5:
+        # every combination of reversed axes with the transpose, uniformly (a reversal of exactly one axis together with the transpose is
+        # the case in which the raw -> formatted and the formatted -> raw conversions of an arrangement differ)
+        spec['rev'] = rng.choice([None, [0], [1], [0, 1]])
+        spec['trans'] = rng.choice([None, [1, 0]])
+    spec['basis'] = rng.choice(['raw', 'formatted'])      # how the arrangement is handed to the constructor (see SegBuilder.build)
     return spec
 
 
